@@ -8,13 +8,15 @@ Environment
   VERIF_C07_STATE   directory for the shared counter (`cnt`) and the trace (`trace.tsv`)         (required)
   VERIF_C07_CRASH   "<k>:b"  kill the whole process group just before mutation k is performed
                     "<k>:a"  kill it immediately after mutation k returned (nothing written since is flushed)
+                    "<k>:t<s>" kill it <s> seconds after mutation k returned (a point inside work that performs no mutation
+                             the wrapper sees: the annotation conversion right after `.params`)
                     "<k>:w"  kill it inside the write session opened by mutation k: right after the first write() call
                              on that file returned and its data was handed to the OS (a copy in progress:
                              shutil.copyfileobj writes 64 KiB pieces, the file holds the first one)
   VERIF_REPO        source tree to run (default /repo)
 
-A mutation = open() in a write/append/create mode, gzip.open() in a write/append mode, or os.remove(), on a path
-under the --output directory.  Trace line: `<n>\t<op>\t<path relative to the output dir>`; closing a file that was
+A mutation = open() in a write/append/create mode, gzip.open() in a write/append mode, os.remove(), or os.replace() /
+os.rename() (op `replace:<destination>`, path = the source), on a path under the --output directory.  Trace line: `<n>\t<op>\t<path relative to the output dir>`; closing a file that was
 opened for writing is traced as an *unnumbered* line `-\tclose\t<path>`, an explicit flush as `-\tflush\t<path>`
 (content commits; not crash points of their own: the kill "after k" precedes every commit that follows mutation k);
 opening a file of the output directory for reading as an unnumbered line `-\tread\t<path>`.
@@ -38,6 +40,10 @@ CNT = os.path.join(STATE, "cnt")
 TRACE = os.path.join(STATE, "trace.tsv")
 _crash = os.environ.get("VERIF_C07_CRASH", "")
 CRASH_K, CRASH_PHASE = (int(_crash.split(":")[0]), _crash.split(":")[1]) if _crash else (-1, "")
+CRASH_DELAY = None
+if CRASH_PHASE.startswith("t"):            # "<k>:t<seconds>": kill <seconds> after mutation k returned (whatever the run is
+    CRASH_DELAY = float(CRASH_PHASE[1:])   # doing then - e.g. inside the annotation conversion, which writes through sqlite)
+    CRASH_PHASE = "t"
 
 
 def _outdir(argv):
@@ -103,6 +109,11 @@ def _bump(op, rel):
 def _after(n):
     if n == CRASH_K and CRASH_PHASE == "a":
         _kill()
+    if n == CRASH_K and CRASH_PHASE == "t":
+        import threading
+        t = threading.Timer(CRASH_DELAY, _kill)
+        t.daemon = True
+        t.start()
 
 
 def _note(what, rel):
@@ -242,10 +253,29 @@ def my_rm(path, *a, **kw):
     return _remove(path, *a, **kw)
 
 
+_replace = os.replace
+_rename = os.rename
+
+
+def _mk_mv(orig):
+    def my_mv(src, dst, *a, **kw):
+        rs, rd = _rel(src), _rel(dst)
+        if rs is not None or rd is not None:
+            # one mutation: the source name disappears, the destination holds its content (atomic)
+            n = _bump("replace:%s" % (rd if rd is not None else "<outside>"), rs if rs is not None else "<outside>")
+            r = orig(src, dst, *a, **kw)
+            _after(n)
+            return r
+        return orig(src, dst, *a, **kw)
+    return my_mv
+
+
 builtins.open = my_open
 io.open = my_open
 gzip.open = my_gz
 os.remove = my_rm
+os.replace = _mk_mv(_replace)
+os.rename = _mk_mv(_rename)
 
 script = os.path.join(REPO, "isoquant.py")
 sys.argv = [script] + sys.argv[1:]
